@@ -470,6 +470,16 @@ func c12Body(w *World, desc *c12Desc) *kernel.Violation {
 		}
 		return out
 	}
+	// Workload mix (swarm style): most runs draw from everything; some
+	// concentrate on pool-level operations (create, rename, drop, list, with
+	// loads and queries in between), where the races are between a pool's
+	// registration in the pools journal and its directory.
+	weights := []int{10, 4, 3, 3, 2, 5, 2, 1, 1, 1, 2, 1, 1, 1}
+	poolFocus := kn.Chance(1, 5)
+	if poolFocus {
+		weights = []int{4, 1, 1, 0, 0, 3, 5, 5, 6, 4, 1, 0, 0, 0}
+		w.Out.Probe("pool-focused-mix")
+	}
 	genOp := func(ci int) *cop {
 		op := &cop{Client: ci, Pool: poolKey}
 		b := branchNames[wl.Intn(len(branchNames))]
@@ -487,7 +497,7 @@ func c12Body(w *World, desc *c12Desc) *kernel.Violation {
 			return out
 		}
 		for tries := 0; tries < 10; tries++ {
-			switch wl.Pick(10, 4, 3, 3, 2, 5, 2, 1, 1, 1, 2, 1, 1, 1) {
+			switch wl.Pick(weights...) {
 			case 0:
 				op.Kind = "load"
 				op.batch = e.GenBatch(wl, &r.PM.Spec, wl.Range(1, 4), r.KeyRange)
@@ -532,7 +542,7 @@ func c12Body(w *World, desc *c12Desc) *kernel.Violation {
 				op.Kind, op.Other = "pool-rename", []string{"p2", "p3", "p4"}[wl.Intn(3)]
 				return op
 			case 8:
-				if !wl.Chance(1, 3) {
+				if !poolFocus && !wl.Chance(1, 3) {
 					continue
 				}
 				op.Kind = "pool-drop"
@@ -838,9 +848,10 @@ func c12Replayable(w *World, e *Env, when string) *kernel.Violation {
 		seen[pc.Name] = true
 		pool, err := obs.Root.OpenPool(e.Ctx, pc.ID)
 		if err != nil {
-			// A pool being created or dropped right now: its name may be
-			// registered while its directory is going away.
-			continue
+			// A pool's directory is made before its name is registered and
+			// removed after its name is struck: a listed pool can be opened
+			// at every instant.
+			return kernel.Violatef("C12:listed-pool-cannot-be-opened", "%s: pool %q is listed but cannot be opened: %v", when, pc.Name, err)
 		}
 		brs, err := pool.ListBranches(e.Ctx)
 		if err != nil {
